@@ -2,4 +2,4 @@ package main
 
 import "verifharness/checks/c14"
 
-func init() { registry["C14"] = entry{"exploration", c14.Run} }
+func init() { registry["C14"] = entry{"model_checking", c14.Run} }
